@@ -810,9 +810,12 @@ func notNil(v reflect.Value) bool {
 }
 
 func (st *Runtime) isSet(node Node) (ok bool) {
+	scope, context, content, writer := st.scope, st.context, st.content, st.Writer
 	defer func() {
 		if r := recover(); r != nil {
-			// something panicked while evaluating node
+			// something panicked while evaluating node; the panic may have unwound through
+			// constructs (range, yield, exec) that had not yet restored what they changed
+			st.scope, st.context, st.content, st.Writer = scope, context, content, writer
 			ok = false
 		}
 	}()
